@@ -1,3 +1,4 @@
+use super::error::SyntaxError;
 use crate::error::*;
 use either::Either;
 use std::{fmt::Display, iter::FromIterator, mem};
@@ -156,7 +157,10 @@ impl<T: Pairable> GenericPair<T> {
         self.pop()
             .map(|item| match item {
                 PairPopItem::Proper(t) => Ok(t),
-                PairPopItem::Improper(_, _) => todo!(),
+                // "(a . b)" where a form, a pattern or a parameter list must be a proper list
+                PairPopItem::Improper(_, _) => error!(SyntaxError::Extension(
+                    "expect a proper list, encounter a dotted pair".to_string()
+                )),
             })
             .transpose()
     }
@@ -181,7 +185,9 @@ impl<T: Pairable> GenericPair<T> {
     ) -> Result<Self, SchemeError> {
         match T::from_pair_iter(iter.into_iter()).into_pair() {
             Either::Left(pair) => Ok(pair),
-            Either::Right(_) => todo!(),
+            Either::Right(_) => error!(SyntaxError::Extension(
+                "expect a list, encounter a single element".to_string()
+            )),
         }
     }
 
